@@ -29,16 +29,17 @@ VARIABLES rclock, rinit, rmax, rslack,
           down,        \* the client has observed the connection failing (failed attempt, or the
                        \* resurrector reports Closed) and no attempt has succeeded since
           firm,        \* ... and a quiescent point has passed since (the fault notification is delivered)
+          downAt,      \* time the current outage began; -1 none
           lastEnd,     \* time the previous attempt ended (or the time it went down); -1 none
           prevGap,     \* previous back-off gap; -1 none
           attDown,     \* the attempt in progress was started while down (a reconnect attempt)
           pend,        \* r -> [at, st, busy]   issued, not yet delivered
           recv,        \* set of times at which requests arrived at the endpoint
           closedAt     \* -1 or time the client was closed
-rvars == <<rclock, rinit, rmax, rslack, down, firm, lastEnd, prevGap, attDown, pend, recv, closedAt>>
+rvars == <<rclock, rinit, rmax, rslack, down, firm, downAt, lastEnd, prevGap, attDown, pend, recv, closedAt>>
 
 RInit(t0, i, m, s) ==
-  /\ rclock = t0 /\ rinit = i /\ rmax = m /\ rslack = s /\ down = FALSE /\ firm = FALSE /\ lastEnd = -1
+  /\ rclock = t0 /\ rinit = i /\ rmax = m /\ rslack = s /\ down = FALSE /\ firm = FALSE /\ downAt = -1 /\ lastEnd = -1
   /\ prevGap = -1 /\ attDown = FALSE /\ pend = <<>> /\ recv = {} /\ closedAt = -1
 
 Mono(t) == IF t >= rclock THEN "ok" ELSE "harness.clockMonotone"
@@ -46,21 +47,29 @@ Same == UNCHANGED <<rinit, rmax, rslack>>
 SameA == UNCHANGED <<rinit, rmax, rslack, attDown>>
 
 ReachCheck(up, t) == Mono(t)
-ReachUpd(up, t) == rclock' = t /\ SameA /\ UNCHANGED <<down, firm, lastEnd, prevGap, pend, recv, closedAt>>
+ReachUpd(up, t) == rclock' = t /\ SameA /\ UNCHANGED <<down, firm, downAt, lastEnd, prevGap, pend, recv, closedAt>>
 
 DownCheck(t) == Mono(t)
 DownUpd(t) == /\ rclock' = t /\ SameA /\ down' = TRUE /\ lastEnd' = (IF down THEN lastEnd ELSE t)
+              /\ downAt' = (IF down THEN downAt ELSE t)
               /\ prevGap' = (IF down THEN prevGap ELSE -1) /\ UNCHANGED firm
               /\ UNCHANGED <<pend, recv, closedAt>>
 UpCheck(t) == Mono(t)
-UpUpd(t) == /\ rclock' = t /\ SameA /\ down' = FALSE /\ firm' = FALSE /\ lastEnd' = -1 /\ prevGap' = -1
+UpUpd(t) == /\ rclock' = t /\ SameA /\ down' = FALSE /\ firm' = FALSE /\ downAt' = -1 /\ lastEnd' = -1 /\ prevGap' = -1
             /\ UNCHANGED <<pend, recv, closedAt>>
+
+\* An attempt is one of the resurrector's retries iff it starts during an outage at a later time
+\* than the outage began; connects started in the very instant the connection died belong to
+\* requests that were already past the resurrector.
+Retry(t) == down /\ lastEnd >= 0 /\ downAt >= 0 /\ t > downAt
 
 \* a reconnect attempt starts: back-off discipline, and nothing after the client was closed
 AttemptCheck(t) ==
   IF Mono(t) # "ok" THEN Mono(t)
   ELSE IF closedAt >= 0 /\ t > closedAt THEN "C09.quietAfterClose"
-  ELSE IF ~down \/ lastEnd < 0 THEN "ok"
+  \* only attempts made after the outage is firm are the resurrector's retries; connects started in
+  \* the instant the connection died belong to requests that were already past the resurrector
+  ELSE IF ~Retry(t) THEN "ok"
   ELSE LET gap == t - lastEnd IN
        IF gap < rinit - Tol THEN "C09.backoff"                     \* never sooner than the initial interval
        ELSE IF gap > rmax + Tol THEN "C09.backoff"                 \* capped at the maximum
@@ -68,15 +77,16 @@ AttemptCheck(t) ==
        ELSE IF prevGap >= 0 /\ prevGap < rmax - Tol /\ gap <= prevGap + Tol THEN "C09.backoff"  \* and grow below the cap
        ELSE "ok"
 AttemptUpd(t) ==
-  /\ rclock' = t /\ Same /\ attDown' = down
-  /\ prevGap' = IF down /\ lastEnd >= 0 THEN t - lastEnd ELSE prevGap
-  /\ UNCHANGED <<down, firm, lastEnd, pend, recv, closedAt>>
+  /\ rclock' = t /\ Same /\ attDown' = Retry(t)
+  /\ prevGap' = IF Retry(t) THEN t - lastEnd ELSE prevGap
+  /\ UNCHANGED <<down, firm, downAt, lastEnd, pend, recv, closedAt>>
 
 AttemptEndCheck(ok, t) == Mono(t)
 \* a failed attempt is an observed failure; a successful one ends the outage
 AttemptEndUpd(ok, t) ==
   /\ rclock' = t /\ SameA
   /\ down' = ~ok
+  /\ downAt' = IF ok THEN -1 ELSE IF down THEN downAt ELSE t
   /\ firm' = IF ok THEN FALSE ELSE firm
   /\ lastEnd' = IF ok THEN -1 ELSE IF (down /\ attDown) \/ ~down THEN t ELSE lastEnd
   /\ prevGap' = IF ok \/ ~down THEN -1 ELSE prevGap
@@ -86,7 +96,7 @@ ReqCheck(r, st, busy, t) ==
   IF Mono(t) # "ok" THEN Mono(t) ELSE IF r \in DOMAIN pend THEN "harness.freshReq" ELSE "ok"
 ReqUpd(r, st, busy, t) ==
   /\ rclock' = t /\ SameA /\ pend' = pend @@ (r :> [at |-> t, st |-> IF firm THEN 4 ELSE 0, busy |-> busy])
-  /\ UNCHANGED <<down, firm, lastEnd, prevGap, recv, closedAt>>
+  /\ UNCHANGED <<down, firm, downAt, lastEnd, prevGap, recv, closedAt>>
 
 \* a request issued while the endpoint is known down (and no attempt is in progress that could
 \* flip the state within the instant) fails in the same instant with the fail-fast error
@@ -97,18 +107,18 @@ DeliverCheck(r, kind, t) ==
   ELSE "ok"
 DeliverUpd(r, kind, t) ==
   /\ rclock' = t /\ SameA /\ pend' = [x \in DOMAIN pend \ {r} |-> pend[x]]
-  /\ UNCHANGED <<down, firm, lastEnd, prevGap, recv, closedAt>>
+  /\ UNCHANGED <<down, firm, downAt, lastEnd, prevGap, recv, closedAt>>
 
 SrvRecvCheck(r, t) == Mono(t)
 SrvRecvUpd(r, t) == /\ rclock' = t /\ SameA /\ recv' = recv \cup {t}
-                    /\ UNCHANGED <<down, firm, lastEnd, prevGap, pend, closedAt>>
+                    /\ UNCHANGED <<down, firm, downAt, lastEnd, prevGap, pend, closedAt>>
 
 \* requests issued while known down must not still be waiting (they fail at once)
 QuietCheck(t) ==
   IF Mono(t) # "ok" THEN Mono(t)
   ELSE IF closedAt < 0 /\ \E r \in DOMAIN pend : pend[r].st = 4 /\ ~pend[r].busy /\ pend[r].at < t THEN "C09.failFast"
   ELSE "ok"
-QuietUpd(t) == rclock' = t /\ SameA /\ firm' = down /\ UNCHANGED <<down, lastEnd, prevGap, pend, recv, closedAt>>
+QuietUpd(t) == rclock' = t /\ SameA /\ firm' = down /\ UNCHANGED <<down, downAt, lastEnd, prevGap, pend, recv, closedAt>>
 
 \* reachable since tau with steady traffic: some request reached the endpoint within the bound
 RecoverCheck(tau, t) ==
@@ -120,5 +130,5 @@ RecoverUpd(tau, t) == QuietUpd(t)
 
 ClientClosedCheck(t) == Mono(t)
 ClientClosedUpd(t) == /\ rclock' = t /\ SameA /\ closedAt' = t
-                      /\ UNCHANGED <<down, firm, lastEnd, prevGap, pend, recv>>
+                      /\ UNCHANGED <<down, firm, downAt, lastEnd, prevGap, pend, recv>>
 =============================================================================
